@@ -5,6 +5,8 @@ from . import engine as E, harness as H, runner as R, configs as C
 def main():
     name = sys.argv[1]; params = json.loads(sys.argv[2]); K = int(sys.argv[3]); ties = sys.argv[4]; mons = sys.argv[5].split(",")
     task = dict(cfg=(name, params), K=K, ties=ties, mons=mons, prop="dev", split_depth=None, exc_is_violation=("C14" in mons))
+    if ":" in name:
+        task["custom"] = name; task["cfg"] = (name.split(":")[1], params); task["mons"] = []
     t=time.time()
     r = R._worker(task)
     if "fatal" in r: print(r["fatal"]); return
